@@ -157,6 +157,15 @@ func (bkt *Bucket) checkHintWithData(chunkID int) (err error) {
 		return
 	}
 	hintDataSize := bkt.hints.loadHintsByChunk(chunkID)
+	if hintDataSize > size {
+		// a hint split can be dumped while its records are still in the write
+		// buffer; after a kill it describes data that never reached the file.
+		// Do not trust it: rebuild the hints of this chunk from the data.
+		logger.Errorf("hint beyond data, rebuild: bucket %d chunk %d hint datasize %d > data size %d",
+			bkt.ID, chunkID, hintDataSize, size)
+		bkt.hints.ClearChunk(chunkID)
+		hintDataSize = 0
+	}
 	if hintDataSize < size {
 		err = bkt.buildHintFromData(chunkID, hintDataSize)
 	}
